@@ -15,6 +15,7 @@ import tracemalloc
 from .. import ashref as R
 from ..ashharness import new_protocol, decode_writes
 from ..runner import Acc
+from .. import logmode
 
 PROPERTY = "C02"
 LEVEL = "exploration"
@@ -351,7 +352,7 @@ def part_mem(desc) -> Acc:
 def run_shard(desc) -> Acc:
     import logging
 
-    logging.disable(logging.CRITICAL)
+    logmode.apply(desc)
     acc = {"a": part_a, "b": part_b, "c": part_c, "mem": part_mem}[desc["part"]](desc)
     return acc
 
